@@ -107,6 +107,8 @@ Definition deco_eqb (a b : deco) :=
   match a, b with Plain, Plain | Ref, Ref | RefMut, RefMut => true | _, _ => false end.
 Definition epat_eqb (a b : epat) := match a, b with ENoCaps, ENoCaps | ECaps, ECaps => true | _, _ => false end.
 Definition fpiece_eqb (a b : fpiece) := match a, b with FFirst, FFirst | FRest, FRest => true | _, _ => false end.
+Definition tpiece_eqb (a b : tpiece) :=
+  match a, b with TCallArgs, TCallArgs => true | TList x, TList y => acc_eqb x y | _, _ => false end.
 Fixpoint list_eqb {A} (e : A -> A -> bool) (x y : list A) : bool :=
   match x, y with
   | [], [] => true
@@ -228,7 +230,8 @@ Definition check_rule (rs : list rule) (p : pat) (good : rule -> bool) : bool :=
 
 Definition deco_of (a : acc) : deco := match a with AArg => Plain | AConst => Ref | AMut => RefMut end.
 Definition seg_ok (s : seg) : bool := deco_eqb (seg_deco s) (deco_of (seg_acc s)).
-Definition tp_acc (t : tpiece) : acc := match t with TCallArgs => AArg | TList a => a end.
+(** in the inner call the arguments are the caller's expressions [$($x,)*], never the callee's own [$($arg,)*] *)
+Definition tp_of (a : acc) : tpiece := match a with AArg => TCallArgs | AConst => TList AConst | AMut => TList AMut end.
 Definition mem_acc (a : acc) (l : list acc) : bool := existsb (acc_eqb a) l.
 Definition perm3 (l : list acc) : bool :=
   (length l =? 3) && mem_acc AArg l && mem_acc AConst l && mem_acc AMut l.
@@ -237,7 +240,7 @@ Definition final_ok (f : final) : bool :=
   perm3 order
   && forallb seg_ok (f_params f)
   && list_eqb fpiece_eqb (f_ruleA f) [FFirst; FRest]
-  && list_eqb acc_eqb (map tp_acc (f_ruleB f)) order
+  && list_eqb tpiece_eqb (f_ruleB f) (map tp_of order)
   && match f_clo_params f with [s] => acc_eqb (seg_acc s) AArg && deco_eqb (seg_deco s) Plain | _ => false end
   && list_eqb acc_eqb (map seg_acc (f_clo_call f)) order
   && forallb seg_ok (f_clo_call f).
